@@ -92,7 +92,7 @@ SNext(kind, c, s, iv, iw, ow) ==
 SOut(kind, c, s, iv, iw, ow) ==
     CASE kind \in {"Reg", "TReg", "Counter", "StepUpCounter"} -> <<s % Pow2(ow[1])>>
       [] kind = "ModuloCounter" -> <<s, IF s = c.mod - 1 THEN 1 ELSE 0>>
-      [] kind = "DelayLine" -> <<s[c.delay]>>
+      [] kind = "DelayLine" -> IF c.delay = 0 THEN <<iv[1]>> ELSE <<s[c.delay]>>     \* no register: a buffer
       [] kind = "PipelinePhase" -> s
       [] kind = "ShiftRegisterBidirectional" -> <<s[1], s[c.depth]>>
       [] kind = "Stack" -> <<IF s.ok THEN s.dout ELSE DC>>
